@@ -1058,8 +1058,23 @@ def roots_upfront(ctx):
         n += 1
         # the loop requesting the roots
         req = []
+        # (recognised by what its body does - it asks for a target on behalf of Root - not by the name of the list it ranges over)
+        root_req_fns = set()
+        for xb in f.user_bodies():
+            for (xbb, xst) in xb.aggregates("ActorInputMessage", "Requested"):
+                rq = agg_field_op(xst, "requester")
+                if rq is not None and "Root" in atom_aggs(xb.prov.operand_atoms(rq), "ActorId"):
+                    root_req_fns |= {xb.name, r.fn_of(xb).name, r.outer_fn(xb).name, r.fn_of(r.outer_fn(xb)).name}
+        def asks_for_root(blks):
+            for x in blks:
+                tx = b.term(x)
+                if tx["k"] == "call" and tx["callee"]:
+                    cn = callee_base(tx)
+                    if cn in root_req_fns or (cn in f.bodies and root_req_fns & f.cg.reach([cn], cross_spawn=False)):
+                        return True
+            return False
         for (nbb, sbb, ne, se, blks, it_atoms) in for_loops(b):
-            if any(x[0] == "field" and "root" in x[2] for x in it_atoms) or atom_has_field(it_atoms, "root_target_ids"):
+            if asks_for_root(blks):
                 recvs = [x for x in blks if b.term(x)["k"] == "call" and b.term(x)["callee"] and re.search(r"Receiver<.*TargetActorOutputMessage>", callee_decl(b.term(x)))]
                 dominates = all(b.dominates(ne.dst, c) if ne else False for c in calls_relay)
                 req.append((nbb, recvs, dominates))
